@@ -10,20 +10,75 @@ import (
 	"bdcheck/internal/ir"
 )
 
-// GraphRoles names the ExecutionGraph's fields by what they hold, read off the
-// code: the two adjacency maps are the map[int][]int fields that one function
-// (the edge writer) appends to, keyed by one node's id and holding the other's;
-// in the edge setup the edge writer's first node argument is the dependency
-// (it comes from the by-name lookup of a Depends entry).
+// GraphRoles names the parts of the ExecutionGraph and of its construction by
+// what they do, read off the code. The adjacency maps are the map[int][]int
+// fields; the edge writer is the one function that updates two of them; the
+// edge loop is the function that ranges over a node's Step.Depends and adds the
+// edges (by calling the edge writer, or by being it). Orientation comes from
+// that loop: the *dependent* is the node whose Depends list is being read, the
+// *dependency* the other node of the edge; Pred is the map keyed by the
+// dependent's id that collects dependency ids, Succ its inverse.
 type GraphRoles struct {
-	AddEdge  *ssa.Function
-	Setup    *ssa.Function // the edge setup: the caller of the edge writer
-	HasCycle *ssa.Function // the cycle test: the boolean callee of Setup whose positive answer makes it return an error
+	AddEdge  *ssa.Function // the edge writer
+	EdgeLoop *ssa.Function // the function ranging over Step.Depends
+	DepLoop  *ir.Loop      // that loop
+	Owner    ssa.Value     // in EdgeLoop: the node whose Depends is read
+	Setup    *ssa.Function // the function that refuses the graph when the cycle test is positive
+	HasCycle *ssa.Function // the cycle test: the boolean function whose positive answer makes Setup return an error
 	Reset    *ssa.Function // the retry reset: the construction-phase function that zeroes node states
-	Pred     string // adjacency[dependent] = its dependencies   (today: "to")
-	Succ     string // adjacency[dependency] = its dependents    (today: "from")
+	Pred     string        // adjacency[dependent] = its dependencies   (today: "to")
+	Succ     string        // adjacency[dependency] = its dependents    (today: "from")
 	AllNodes []string
+	Updates  []EdgeUpdate // the adjacency updates of the edge writer
+	why      string       // what could not be resolved
 	ok       bool
+}
+
+// EdgeUpdate is one `g.<Field>[K.id] = append(g.<Field>[K.id], A.id)` of the edge writer.
+type EdgeUpdate struct {
+	Site                         *ssa.MapUpdate
+	Field                        string
+	Key, App                     ssa.Value // roots of the key's and the appended id's access paths, in the writer's frame
+	KeyDependent, AppDependent   bool
+	KeyDependency, AppDependency bool
+}
+
+// appendedID returns the value whose `.id` is appended by `m[k] = append(m[k], x.id)`.
+func (e *Env) appendedID(mu *ssa.MapUpdate) ssa.Value {
+	c, ok := mu.Value.(*ssa.Call)
+	if !ok {
+		return nil
+	}
+	bi, ok := c.Call.Value.(*ssa.Builtin)
+	if !ok || bi.Name() != "append" || len(c.Call.Args) != 2 {
+		return nil
+	}
+	fl := &ir.Flow{C: e.C, Source: func(v ssa.Value) bool {
+		p, ok := e.C.PathOf(v)
+		return ok && p.Suffix("id")
+	}}
+	sl, ok := c.Call.Args[1].(*ssa.Slice)
+	if !ok {
+		return nil
+	}
+	al, ok := sl.X.(*ssa.Alloc)
+	if !ok {
+		return nil
+	}
+	for _, ref := range *al.Referrers() {
+		if ia, ok := ref.(*ssa.IndexAddr); ok {
+			for _, r2 := range *ia.Referrers() {
+				if st, ok := r2.(*ssa.Store); ok {
+					if fl.Any(st.Val) && len(fl.Sources) > 0 {
+						if ap, ok := e.C.PathOf(fl.Sources[0]); ok {
+							return ap.Root
+						}
+					}
+				}
+			}
+		}
+	}
+	return nil
 }
 
 func (e *Env) graphRoles() *GraphRoles {
@@ -34,10 +89,12 @@ func (e *Env) graphRoles() *GraphRoles {
 	e.groles = g
 	sp := e.P.Pkg(schedRel)
 	if sp == nil {
+		g.why = "scheduler package not loaded"
 		return g
 	}
 	gt := sp.Type("ExecutionGraph")
 	if gt == nil {
+		g.why = "type ExecutionGraph not found"
 		return g
 	}
 	st, ok := gt.Type().Underlying().(*types.Struct)
@@ -63,12 +120,8 @@ func (e *Env) graphRoles() *GraphRoles {
 			}
 		}
 	}
-	// the edge writer: the function updating two adjacency maps keyed by its two node parameters
-	for _, f := range e.RepoFuncsSorted() {
-		if rootFn(f).Package() != sp || len(f.Params) != 3 {
-			continue
-		}
-		keyed := map[string]int{} // field -> index of the parameter whose id is the key
+	adjUpdates := func(f *ssa.Function) []EdgeUpdate {
+		var out []EdgeUpdate
 		for _, b := range f.Blocks {
 			for _, in := range b.Instrs {
 				mu, ok := in.(*ssa.MapUpdate)
@@ -76,39 +129,151 @@ func (e *Env) graphRoles() *GraphRoles {
 					continue
 				}
 				mp, ok1 := e.C.PathOf(mu.Map)
-				kp, ok2 := e.C.PathOf(mu.Key)
-				if !ok1 || !ok2 || len(mp.Fields) != 1 || !adj[mp.Fields[0]] {
+				if !ok1 || len(mp.Fields) != 1 || !adj[mp.Fields[0]] || !strings.HasSuffix(ir.NamedType(mp.Root.Type()), ".ExecutionGraph") {
 					continue
 				}
-				for i, p := range f.Params {
-					if i > 0 && ir.Resolve(kp.Root) == ssa.Value(p) {
-						keyed[mp.Fields[0]] = i
+				u := EdgeUpdate{Site: mu, Field: mp.Fields[0]}
+				if kp, ok2 := e.C.PathOf(mu.Key); ok2 && kp.Suffix("id") {
+					u.Key = kp.Root
+				}
+				u.App = e.appendedID(mu)
+				out = append(out, u)
+			}
+		}
+		return out
+	}
+	// the edge writer: the function updating two adjacency maps
+	for _, f := range e.RepoFuncsSorted() {
+		if rootFn(f).Package() != sp {
+			continue
+		}
+		us := adjUpdates(f)
+		fields := map[string]bool{}
+		for _, u := range us {
+			fields[u.Field] = true
+		}
+		if len(fields) >= 2 {
+			if g.AddEdge != nil {
+				g.why = "two functions update both adjacency maps: " + ShortFn(g.AddEdge) + ", " + ShortFn(f)
+				return g
+			}
+			g.AddEdge, g.Updates = f, us
+		}
+	}
+	if g.AddEdge == nil {
+		g.why = "no function of the scheduler package updates two map[int][]int fields of ExecutionGraph"
+		return g
+	}
+	// the edge loop: ranges over X.Step.Depends and reaches the edge writer from inside the loop
+	var edgeCalls []*ssa.Call
+	for _, f := range e.RepoFuncsSorted() {
+		if rootFn(f).Package() != sp {
+			continue
+		}
+		for _, l := range ir.Loops(f) {
+			if l.Ranged == nil {
+				continue
+			}
+			p, ok := e.C.PathOf(l.Ranged)
+			if !ok || !p.Suffix("Step.Depends") {
+				continue
+			}
+			var calls []*ssa.Call
+			inl := false
+			for b := range l.Blocks {
+				for _, in := range b.Instrs {
+					if c, ok := in.(*ssa.Call); ok && c.Call.StaticCallee() == g.AddEdge {
+						calls = append(calls, c)
+					}
+					if mu, ok := in.(*ssa.MapUpdate); ok && f == g.AddEdge {
+						for _, u := range g.Updates {
+							if u.Site == mu {
+								inl = true
+							}
+						}
+					}
+				}
+			}
+			if len(calls) > 0 || inl {
+				g.EdgeLoop, g.DepLoop, g.Owner, edgeCalls = f, l, p.Root, calls
+			}
+		}
+	}
+	if g.EdgeLoop == nil {
+		g.why = "no loop over a node's Step.Depends adds edges (calls " + ShortFn(g.AddEdge) + " or updates the adjacency maps)"
+		return g
+	}
+	// orientation: translate the writer's key / appended roots into the edge loop's frame
+	isOwner := func(v ssa.Value) bool { return v != nil && (SameValue(v, g.Owner) || sameElem(v, g.Owner)) }
+	toLoop := func(v ssa.Value) []ssa.Value {
+		if v == nil {
+			return nil
+		}
+		if g.AddEdge == g.EdgeLoop {
+			return []ssa.Value{v}
+		}
+		var out []ssa.Value
+		for i, p := range g.AddEdge.Params {
+			if ir.Resolve(v) == ssa.Value(p) {
+				for _, c := range edgeCalls {
+					if i < len(c.Call.Args) {
+						out = append(out, c.Call.Args[i])
 					}
 				}
 			}
 		}
-		if len(keyed) == 2 {
-			g.AddEdge = f
-			for name, idx := range keyed {
-				if idx == 1 {
-					g.Succ = name // keyed by the first node (the dependency)
-				} else {
-					g.Pred = name
-				}
+		return out
+	}
+	all := func(vs []ssa.Value, pred func(ssa.Value) bool) bool {
+		if len(vs) == 0 {
+			return false
+		}
+		for _, v := range vs {
+			if !pred(v) {
+				return false
+			}
+		}
+		return true
+	}
+	for i := range g.Updates {
+		u := &g.Updates[i]
+		kl, al := toLoop(u.Key), toLoop(u.App)
+		u.KeyDependent, u.AppDependent = all(kl, isOwner), all(al, isOwner)
+		notOwner := func(v ssa.Value) bool { return !isOwner(v) }
+		u.KeyDependency, u.AppDependency = all(kl, notOwner), all(al, notOwner)
+		if u.KeyDependent && u.AppDependency {
+			if g.Pred != "" && g.Pred != u.Field {
+				g.why = "two different maps collect a node's dependencies"
+				return g
+			}
+			g.Pred = u.Field
+		}
+		if u.KeyDependency && u.AppDependent {
+			if g.Succ != "" && g.Succ != u.Field {
+				g.why = "two different maps collect a node's dependents"
+				return g
+			}
+			g.Succ = u.Field
+		}
+	}
+	g.ok = g.Pred != "" && g.Succ != "" && g.Pred != g.Succ
+	if !g.ok {
+		g.why = "the edge writer does not record an edge as adjacency[dependent]+=dependency and adjacency'[dependency]+=dependent"
+	}
+	// the refusing setup: the edge loop or one of its callers in the package, the
+	// first whose error return depends on a boolean test of the package
+	cands := []*ssa.Function{g.EdgeLoop}
+	seen := map[*ssa.Function]bool{g.EdgeLoop: true}
+	for i := 0; i < len(cands) && i < 8; i++ {
+		for _, ci := range e.StaticCallSites(cands[i]) {
+			if c := ci.Parent(); c != nil && rootFn(c).Package() == sp && !seen[c] {
+				seen[c] = true
+				cands = append(cands, c)
 			}
 		}
 	}
-	g.ok = g.AddEdge != nil && g.Pred != "" && g.Succ != ""
-	if g.AddEdge != nil {
-		for _, ci := range e.StaticCallSites(g.AddEdge) {
-			g.Setup = ci.Parent()
-		}
-	}
-	if g.Setup == nil {
-		g.Setup = e.FnQuiet(schedRel, "(*ExecutionGraph).setup")
-	}
-	if g.Setup != nil {
-		for _, b := range g.Setup.Blocks {
+	for _, c := range cands {
+		for _, b := range c.Blocks {
 			rt, ok := b.Instrs[len(b.Instrs)-1].(*ssa.Return)
 			if !ok || len(rt.Results) != 1 {
 				continue
@@ -126,14 +291,14 @@ func (e *Env) graphRoles() *GraphRoles {
 				if l.Kind != "val" || !l.Pol {
 					continue
 				}
-				if c, isC := ir.Resolve(l.V).(*ssa.Call); isC && c.Call.StaticCallee() != nil && rootFn(c.Call.StaticCallee()).Package() == sp {
-					g.HasCycle = c.Call.StaticCallee()
+				if cc, isC := ir.Resolve(l.V).(*ssa.Call); isC && cc.Call.StaticCallee() != nil && rootFn(cc.Call.StaticCallee()).Package() == sp {
+					g.Setup, g.HasCycle = c, cc.Call.StaticCallee()
 				}
 			}
 		}
-	}
-	if g.HasCycle == nil {
-		g.HasCycle = e.FnQuiet(schedRel, "(*ExecutionGraph).hasCycle")
+		if g.Setup != nil {
+			break
+		}
 	}
 	// the retry reset: reachable from the retry constructor, zeroes a node's state
 	if ctor := e.FnQuiet(schedRel, "NewExecutionGraphForRetry"); ctor != nil {
@@ -148,10 +313,23 @@ func (e *Env) graphRoles() *GraphRoles {
 			}
 		}
 	}
-	if g.Reset == nil {
-		g.Reset = e.FnQuiet(schedRel, "(*ExecutionGraph).setupRetry")
-	}
 	return g
+}
+
+// isEdgeSite: the instruction adds an edge inside the edge loop (a call of the
+// edge writer, or - when the loop is the writer - one of its adjacency updates).
+func (g *GraphRoles) isEdgeSite(in ssa.Instruction) bool {
+	if c, ok := in.(*ssa.Call); ok && g.AddEdge != g.EdgeLoop && c.Call.StaticCallee() == g.AddEdge {
+		return true
+	}
+	if mu, ok := in.(*ssa.MapUpdate); ok && g.AddEdge == g.EdgeLoop {
+		for _, u := range g.Updates {
+			if u.Site == mu {
+				return true
+			}
+		}
+	}
+	return false
 }
 
 // readinessFunc: by role, the boolean function of the scheduler package that
@@ -236,38 +414,307 @@ func (e *Env) boolHelperReturns(h *ssa.Function, want bool) (alts [][]ir.NLit, o
 	return alts, true
 }
 
+// callAlt is one way a helper call can have returned, seen from the caller: the
+// caller's conditions with every literal about the call's results replaced by
+// the helper's own conditions for that return, and the values returned there.
+type callAlt struct {
+	Lits    []ir.NLit
+	Results []ssa.Value
+}
+
+// helperOf: v is a result of a call of a branching helper of the repository that
+// is called from one place; returns the call and the result index.
+func (e *Env) helperOf(v ssa.Value) (*ssa.Call, int, bool) {
+	v = ir.Resolve(v)
+	idx := 0
+	if ex, ok := v.(*ssa.Extract); ok {
+		v, idx = ex.Tuple, ex.Index
+	}
+	c, ok := v.(*ssa.Call)
+	if !ok {
+		return nil, 0, false
+	}
+	h := c.Call.StaticCallee()
+	if h == nil || !e.P.Funcs[h] || h.Blocks == nil || ir.UniqueSite(h) == nil {
+		return nil, 0, false
+	}
+	// getters (State(), isCanceled() ...) stay as they are: only helpers that
+	// branch, and forwarders (`return other(x)`) of such helpers
+	if len(h.Blocks) < 3 {
+		fwd := false
+		if len(h.Blocks) == 1 {
+			if rt, isR := h.Blocks[0].Instrs[len(h.Blocks[0].Instrs)-1].(*ssa.Return); isR && idx < len(rt.Results) {
+				if cc, isC := ir.Resolve(rt.Results[idx]).(*ssa.Call); isC {
+					if g := cc.Call.StaticCallee(); g != nil && e.P.Funcs[g] && g.Blocks != nil && len(g.Blocks) >= 3 && ir.UniqueSite(g) != nil {
+						fwd = true
+					}
+				}
+			}
+		}
+		if !fwd {
+			return nil, 0, false
+		}
+	}
+	return c, idx, true
+}
+
+// splitOnCall enumerates the return sites of the helper called by c (and, for a
+// return reached in several ways, each way) and keeps those consistent with the
+// literals of lits that speak about c's results.
+func (e *Env) splitOnCall(c *ssa.Call, lits []ir.NLit) ([]callAlt, bool) {
+	h := c.Call.StaticCallee()
+	ff := e.Facts(h)
+	var rest, about []ir.NLit
+	aboutIdx := []int{}
+	for _, l := range lits {
+		var subj ssa.Value
+		switch l.Kind {
+		case "val":
+			subj = l.V
+		case "cmp":
+			subj = l.X
+		}
+		hof := e.helperOf
+		if e.anySite {
+			hof = e.helperOfAny
+		}
+		if cc, idx, ok := hof(subj); ok && cc == c {
+			about = append(about, l)
+			aboutIdx = append(aboutIdx, idx)
+			continue
+		}
+		rest = append(rest, l)
+	}
+	var out []callAlt
+	for _, b := range h.Blocks {
+		rt, isR := b.Instrs[len(b.Instrs)-1].(*ssa.Return)
+		if !isR || !ff.Reachable(b) {
+			continue
+		}
+		var ways [][]ir.NLit
+		if dnf, okRC := ir.ReachingCondition(h.Blocks[0], b, 32); okRC && len(dnf) > 0 && len(ir.Loops(h)) == 0 {
+			for _, cj := range dnf {
+				for _, conj := range ff.ExpandDNFRegion(h.Blocks[0], []ir.Lit(cj)) {
+					ways = append(ways, ir.NormalizeAll(conj))
+				}
+			}
+		} else {
+			ways = [][]ir.NLit{e.DCSBlock(b)}
+		}
+		// the values returned here (one alternative per combination is not needed:
+		// a spilled result with several stores is left undecided)
+		results := make([]ssa.Value, len(rt.Results))
+		for i := range rt.Results {
+			vs := RetVals(rt, i)
+			if len(vs) == 1 {
+				results[i] = ir.Resolve(vs[0])
+			}
+		}
+		for _, way := range ways {
+			alts := [][]ir.NLit{append(append([]ir.NLit{}, rest...), way...)}
+			feasible := true
+			for k, l := range about {
+				rv := results[aboutIdx[k]]
+				if rv == nil {
+					for a := range alts {
+						alts[a] = append(alts[a], l)
+					}
+					continue
+				}
+				switch l.Kind {
+				case "val":
+					if cb, isC := ir.ConstBool(rv); isC {
+						if cb != l.Pol {
+							feasible = false
+						}
+						continue
+					}
+					// a computed verdict: the ways the value can have the wanted polarity
+					var next [][]ir.NLit
+					for _, conj := range ff.ExpandDNF([]ir.Lit{{Cond: rv, Pol: l.Pol}}) {
+						for _, a := range alts {
+							next = append(next, append(append([]ir.NLit{}, a...), ir.NormalizeAll(conj)...))
+						}
+					}
+					alts = next
+				case "cmp":
+					dec, val := e.evalCmp(l.Op, rv, l.Y)
+					if dec {
+						if !val {
+							feasible = false
+						}
+						continue
+					}
+					if ir.IsNilConst(l.Y) && forwardedResult(rv) {
+						// `return g(x)` / `_, err := g(x); return err`: the caller's nil test is a test of g's result
+						nl := l
+						nl.X = rv
+						for a := range alts {
+							alts[a] = append(alts[a], nl)
+						}
+						continue
+					}
+					// a computed result compared in the caller: the literal stays as the caller wrote it
+					for a := range alts {
+						alts[a] = append(alts[a], l)
+					}
+				}
+				if !feasible {
+					break
+				}
+			}
+			if !feasible {
+				continue
+			}
+			for _, a := range alts {
+				out = append(out, callAlt{Lits: a, Results: results})
+			}
+		}
+	}
+	return out, len(out) > 0 && len(out) <= 64
+}
+
+// verdictResult: result idx of h is a boolean, or every return gives it a constant.
+func (e *Env) verdictResult(h *ssa.Function, idx int) bool {
+	rs := h.Signature.Results()
+	if idx >= rs.Len() {
+		return false
+	}
+	if b, isB := rs.At(idx).Type().Underlying().(*types.Basic); isB && b.Kind() == types.Bool {
+		return true
+	}
+	n := 0
+	for _, b := range h.Blocks {
+		rt, isR := b.Instrs[len(b.Instrs)-1].(*ssa.Return)
+		if !isR || idx >= len(rt.Results) {
+			continue
+		}
+		for _, v := range RetVals(rt, idx) {
+			n++
+			if _, isC := ir.Resolve(v).(*ssa.Const); !isC && !e.definitelyNonNil(v, 0) && !forwardedResult(v) {
+				return false
+			}
+		}
+	}
+	return n > 0
+}
+
+// definitelyNonNil: v is a freshly built value (an allocation, an interface
+// made from one, the result of a repository constructor all of whose returns are
+// such values).
+func (e *Env) definitelyNonNil(v ssa.Value, depth int) bool {
+	v = ir.Resolve(v)
+	switch x := v.(type) {
+	case *ssa.Alloc, *ssa.MakeClosure, *ssa.Function, *ssa.FieldAddr, *ssa.IndexAddr, *ssa.MakeMap, *ssa.MakeSlice, *ssa.MakeChan:
+		return true
+	case *ssa.MakeInterface:
+		return true
+	case *ssa.Call:
+		if ir.IsCallTo(&x.Call, "fmt.Errorf", "errors.New") {
+			return true
+		}
+		g := x.Call.StaticCallee()
+		if g == nil || !e.P.Funcs[g] || g.Blocks == nil || depth > 2 || g.Signature.Results().Len() != 1 {
+			return false
+		}
+		n := 0
+		for _, b := range g.Blocks {
+			if rt, ok := b.Instrs[len(b.Instrs)-1].(*ssa.Return); ok {
+				for _, rv := range RetVals(rt, 0) {
+					n++
+					if !e.definitelyNonNil(rv, depth+1) {
+						return false
+					}
+				}
+			}
+		}
+		return n > 0
+	}
+	return false
+}
+
+// evalCmp decides `x op y` for constants (integers, nil).
+func (e *Env) evalCmp(op token.Token, x, y ssa.Value) (decided, val bool) {
+	if ir.IsNilConst(y) && !ir.IsNilConst(x) && e.definitelyNonNil(x, 0) {
+		switch op {
+		case token.EQL:
+			return true, false
+		case token.NEQ:
+			return true, true
+		}
+	}
+	return evalCmp(op, x, y)
+}
+
+func evalCmp(op token.Token, x, y ssa.Value) (decided, val bool) {
+	if a, ok := ir.ConstInt(x); ok {
+		if b, ok := ir.ConstInt(y); ok {
+			switch op {
+			case token.EQL:
+				return true, a == b
+			case token.NEQ:
+				return true, a != b
+			case token.LSS:
+				return true, a < b
+			case token.LEQ:
+				return true, a <= b
+			}
+		}
+		return false, false
+	}
+	if ir.IsNilConst(y) && ir.IsNilConst(x) {
+		switch op {
+		case token.EQL:
+			return true, true
+		case token.NEQ:
+			return true, false
+		}
+	}
+	return false, false
+}
+
 // expandHelperCalls rewrites a conjunction of literals into a disjunction in
-// which literals that are calls of single-call-site boolean helpers of the
-// repository are replaced by the helper's own return conditions (the virtual
-// inlining view for conditions). Bounded.
+// which literals about the results of single-call-site branching helpers of the
+// repository (boolean helpers, and classifiers returning several values) are
+// replaced by the helper's own return conditions (the virtual inlining view for
+// conditions). All literals about one call are resolved against the same return.
+// Bounded.
 func (e *Env) expandHelperCalls(lits []ir.NLit, depth int) [][]ir.NLit {
+	return e.expandHelperCallsX(lits, depth, map[*ssa.Call]bool{})
+}
+
+func (e *Env) expandHelperCallsX(lits []ir.NLit, depth int, done map[*ssa.Call]bool) [][]ir.NLit {
 	if depth > 3 {
 		return [][]ir.NLit{lits}
 	}
-	for i, l := range lits {
-		if l.Kind != "val" {
+	for _, l := range lits {
+		var subj ssa.Value
+		switch l.Kind {
+		case "val":
+			subj = l.V
+		case "cmp":
+			subj = l.X
+		}
+		c, idx, ok := e.helperOf(subj)
+		if !ok || done[c] {
 			continue
 		}
-		c, ok := ir.Resolve(l.V).(*ssa.Call)
+		// only results that are verdicts (booleans, enum-like constants) are resolved
+		// against the helper's returns; a computed quantity (a count) stays opaque
+		if !e.verdictResult(c.Call.StaticCallee(), idx) {
+			continue
+		}
+		alts, ok := e.splitOnCall(c, lits)
 		if !ok {
 			continue
 		}
-		h := c.Call.StaticCallee()
-		if h == nil || !e.P.Funcs[h] || ir.UniqueSite(h) == nil {
-			continue
+		nd := map[*ssa.Call]bool{c: true}
+		for k := range done {
+			nd[k] = true
 		}
-		// getters (State(), isCanceled() ...) stay as they are: only helpers that branch
-		if len(h.Blocks) < 3 {
-			continue
-		}
-		alts, ok := e.boolHelperReturns(h, l.Pol)
-		if !ok || len(alts) == 0 || len(alts) > 32 {
-			continue
-		}
-		rest := append(append([]ir.NLit{}, lits[:i]...), lits[i+1:]...)
 		var out [][]ir.NLit
 		for _, a := range alts {
-			out = append(out, e.expandHelperCalls(append(append([]ir.NLit{}, rest...), a...), depth+1)...)
+			out = append(out, e.expandHelperCallsX(a.Lits, depth+1, nd)...)
 		}
 		return out
 	}
@@ -360,4 +807,226 @@ func (e *Env) nodeRoles() *NodeRoles {
 		nr.Wire = e.FnQuiet(schedRel, "(*Node).setupExec")
 	}
 	return nr
+}
+
+// BLit is a literal in the frame of some function together with the binding of
+// that function's parameters to the arguments of the call through which the
+// literal was obtained. It lets the conditions of a helper that is called from
+// several places (no virtual inlining possible) be read at one of its calls.
+type BLit struct {
+	ir.NLit
+	Bind map[ssa.Value]ssa.Value
+}
+
+// Val resolves a value of the literal's frame to the caller's frame: bound
+// parameters are replaced by their arguments, then parameters of
+// single-call-site helpers by theirs.
+func (b BLit) Val(v ssa.Value) ssa.Value {
+	for d := 0; d < 6; d++ {
+		v = ir.Resolve(v)
+		if a, ok := b.Bind[v]; ok {
+			v = a
+			continue
+		}
+		break
+	}
+	return ir.Deep(v)
+}
+
+// expandBound is expandHelperCalls without the single-call-site restriction:
+// a literal about the result of any branching helper (or one-expression
+// predicate) of the repository is replaced by the helper's own conditions, each
+// carrying the binding of the helper's parameters at this call.
+func (e *Env) expandBound(lits []ir.NLit) [][]BLit {
+	var start []BLit
+	for _, l := range lits {
+		start = append(start, BLit{NLit: l})
+	}
+	return e.expandBoundX(start, 0, map[*ssa.Call]bool{})
+}
+
+func (e *Env) expandBoundX(lits []BLit, depth int, done map[*ssa.Call]bool) [][]BLit {
+	if depth > 3 {
+		return [][]BLit{lits}
+	}
+	for _, l := range lits {
+		var subj ssa.Value
+		switch l.Kind {
+		case "val":
+			subj = l.V
+		case "cmp":
+			subj = l.X
+		}
+		c, idx, ok := e.helperOfAny(subj)
+		if !ok || done[c] {
+			continue
+		}
+		h := c.Call.StaticCallee()
+		if !e.verdictResult(h, idx) {
+			continue
+		}
+		// split on the plain literals, then attach the binding to what came from the callee
+		var plain []ir.NLit
+		owner := map[int]map[ssa.Value]ssa.Value{}
+		for i, x := range lits {
+			plain = append(plain, x.NLit)
+			owner[i] = x.Bind
+		}
+		alts, ok := e.splitOnCallAny(c, plain)
+		if !ok {
+			continue
+		}
+		bind := map[ssa.Value]ssa.Value{}
+		for i, p := range h.Params {
+			if i < len(c.Call.Args) {
+				// the argument itself may live in a bound frame
+				bind[p] = l.Val(c.Call.Args[i])
+			}
+		}
+		nd := map[*ssa.Call]bool{c: true}
+		for k := range done {
+			nd[k] = true
+		}
+		var out [][]BLit
+		for _, a := range alts {
+			var bl []BLit
+			for _, x := range a.Lits {
+				// a literal of the caller keeps its own binding; one of the callee gets the new one
+				var b map[ssa.Value]ssa.Value
+				found := false
+				for i, pl := range plain {
+					if pl == x {
+						b, found = owner[i], true
+						break
+					}
+				}
+				if !found {
+					b = bind
+				}
+				bl = append(bl, BLit{NLit: x, Bind: b})
+			}
+			out = append(out, e.expandBoundX(bl, depth+1, nd)...)
+		}
+		return out
+	}
+	return [][]BLit{lits}
+}
+
+// helperOfAny is helperOf without the single-call-site requirement; it also
+// accepts one-expression predicates (a single block returning a comparison).
+func (e *Env) helperOfAny(v ssa.Value) (*ssa.Call, int, bool) {
+	if v == nil {
+		return nil, 0, false
+	}
+	v = ir.Resolve(v)
+	idx := 0
+	if ex, ok := v.(*ssa.Extract); ok {
+		v, idx = ex.Tuple, ex.Index
+	}
+	c, ok := v.(*ssa.Call)
+	if !ok {
+		return nil, 0, false
+	}
+	h := c.Call.StaticCallee()
+	if h == nil || !e.P.Funcs[h] || h.Blocks == nil || c.Call.IsInvoke() {
+		return nil, 0, false
+	}
+	// only helpers of the caller's own package: another package's function is an
+	// interface whose meaning the rules state themselves
+	if c.Parent() == nil || rootFn(c.Parent()).Package() != rootFn(h).Package() {
+		return nil, 0, false
+	}
+	if len(h.Blocks) >= 3 {
+		return c, idx, true
+	}
+	if len(h.Blocks) == 1 {
+		if rt, isR := h.Blocks[0].Instrs[len(h.Blocks[0].Instrs)-1].(*ssa.Return); isR && idx < len(rt.Results) {
+			rv := ir.Resolve(rt.Results[idx])
+			for {
+				if u, isU := rv.(*ssa.UnOp); isU && u.Op == token.NOT {
+					rv = ir.Resolve(u.X)
+					continue
+				}
+				break
+			}
+			switch x := rv.(type) {
+			case *ssa.BinOp:
+				switch x.Op {
+				case token.EQL, token.NEQ, token.LSS, token.LEQ, token.GTR, token.GEQ:
+					return c, idx, true
+				}
+			case *ssa.Call:
+				if g := x.Call.StaticCallee(); g != nil && e.P.Funcs[g] && g.Blocks != nil {
+					return c, idx, true
+				}
+			case *ssa.Extract:
+				// `_, err := g(x); return err`
+				if _, isC := x.Tuple.(*ssa.Call); isC {
+					return c, idx, true
+				}
+			}
+		}
+	}
+	return nil, 0, false
+}
+
+// splitOnCallAny: splitOnCall for helpers found by helperOfAny.
+func (e *Env) splitOnCallAny(c *ssa.Call, lits []ir.NLit) ([]callAlt, bool) {
+	e.anySite = true
+	defer func() { e.anySite = false }()
+	return e.splitOnCall(c, lits)
+}
+
+// forwardedResult: v is the (error) result of another call, handed on unchanged.
+func forwardedResult(v ssa.Value) bool {
+	v = ir.Resolve(v)
+	if ex, ok := v.(*ssa.Extract); ok {
+		_, isC := ex.Tuple.(*ssa.Call)
+		return isC
+	}
+	c, ok := v.(*ssa.Call)
+	if !ok {
+		return false
+	}
+	_, isB := c.Call.Value.(*ssa.Builtin)
+	return !isB
+}
+
+// existsPredicate: f tells whether a file exists - a function of the repository
+// with one string parameter and a boolean result that stats its argument and
+// answers from os.IsNotExist / the stat error. positive reports whether `true`
+// means "exists".
+func (e *Env) existsPredicate(f *ssa.Function) (is, positive bool) {
+	if f == nil || !e.P.Funcs[f] || f.Blocks == nil || len(f.Params) != 1 || f.Signature.Results().Len() != 1 {
+		return false, false
+	}
+	if b, ok := f.Signature.Results().At(0).Type().Underlying().(*types.Basic); !ok || b.Kind() != types.Bool {
+		return false, false
+	}
+	stat := ir.CallsIn(f, func(c *ssa.CallCommon) bool { return ir.IsCallTo(c, "os.Stat", "os.Lstat") })
+	if len(stat) != 1 || ir.Resolve(stat[0].Common().Args[0]) != ssa.Value(f.Params[0]) {
+		return false, false
+	}
+	for _, b := range f.Blocks {
+		rt, ok := b.Instrs[len(b.Instrs)-1].(*ssa.Return)
+		if !ok {
+			continue
+		}
+		v := ir.Resolve(rt.Results[0])
+		pol := true
+		for {
+			if u, isU := v.(*ssa.UnOp); isU && u.Op == token.NOT {
+				v, pol = ir.Resolve(u.X), !pol
+				continue
+			}
+			break
+		}
+		if c, isC := v.(*ssa.Call); isC && ir.IsCallTo(&c.Call, "os.IsNotExist", "errors.Is") {
+			return true, !pol // IsNotExist(err): true means "does not exist"
+		}
+		if bo, isB := v.(*ssa.BinOp); isB && (bo.Op == token.EQL || bo.Op == token.NEQ) && (ir.IsNilConst(bo.X) || ir.IsNilConst(bo.Y)) {
+			return true, (bo.Op == token.EQL) == pol // err == nil: exists
+		}
+	}
+	return false, false
 }
